@@ -117,7 +117,7 @@ theorem proto_not_state (cfg : KCfg) (n : Neg) (P : Proto) (u num : Bool) (hwf :
   cases P with
   | num d =>
     simp only [AOpt.wf, Bool.and_eq_true] at hwf
-    have hd := canonNum_digits hwf.1
+    have hd := canonNum_digits hwf.1.1
     have hu : (Proto.num d).uname u num = d := by
       unfold Proto.uname Proto.kname
       cases u <;> simp [upper_digits hd]
@@ -157,7 +157,7 @@ theorem pm_fold (cfg : KCfg) (P : Proto) (u num : Bool) (c : Str)
     have : d = c := hk
     subst this
     exfalso
-    rcases hc with e | e | e | e <;> rw [e] at hwf <;> exact absurd hwf.1 (by decide)
+    rcases hc with e | e | e | e <;> rw [e] at hwf <;> exact absurd hwf.1.1 (by decide)
   | tcp => obtain ⟨names⟩ := cfg; revert hk hwf; rcases hc with e | e | e | e <;> subst e <;> cases u <;> cases num <;> cases names <;> decide
   | udp => obtain ⟨names⟩ := cfg; revert hk hwf; rcases hc with e | e | e | e <;> subst e <;> cases u <;> cases num <;> cases names <;> decide
   | icmp => obtain ⟨names⟩ := cfg; revert hk hwf; rcases hc with e | e | e | e <;> subst e <;> cases u <;> cases num <;> cases names <;> decide
